@@ -4,6 +4,16 @@ Scenarios are built from the idioms the documentation recommends (timeout armed 
 loops with immediate re-acquire, producers/consumers, interrupts / stops / preemptions aimed at blocked processes) with small
 integer durations so that several causes fall on the same simulated instant. Every command is self-guarding in both
 drivers, so every generated scenario is a valid program.
+
+Pattern cancel (`upcancel` = cmb_event_pattern_cancel(user_action, ANY, ANY)): the library cancels the matching events in the
+order of its heap array, the model in the order of its abstract pending list (the header leaves the order unspecified). The
+order is observable only through the order in which waiters (`waite`) of DIFFERENT cancelled events with EQUAL priority are
+resumed. Scenarios that contain `upcancel` therefore follow one of two disciplines (`pmode`):
+  "prio"  - all processes have pairwise different priorities and there is no `prio` command: waiters of different events
+            are resumed in priority order, whatever the order of cancellation;
+  "one"   - at most one awaited user event at any time: `waite` only on variable 8, and variable 8 is only (re)written by
+            the pair `ucancel 8` / `usched 8 ...` (no yield in between), variable 9 holds events nobody waits for.
+In both, the set of wake-ups, their times, priorities and the block of handles they occupy do not depend on the order.
 """
 import random
 
@@ -38,6 +48,18 @@ def gen_scenario(rng, profile=None, size=None, exclude=frozenset()):
                 n = {0: nres, 1: len(pools), 2: len(bufs), 3: len(oqs)}[k]
                 subs.append("sub %d %d %d %d" % (c, k, rng.randrange(n), rng.randint(0, 1)))
     out += subs
+    # pattern cancel of user events: see the module docstring
+    pmode = rng.choice([None, "prio", "one"]) if profile in ("timers", "lifecycle", "mixed") else None
+
+    def uvar():
+        return rng.randrange(8, 10)
+
+    def usched_cmds():
+        if pmode == "one":
+            if rng.random() < 0.5:
+                return ["usched 9 %d %d" % (dur(), prio())]
+            return ["ucancel 8", "usched 8 %d %d" % (dur(), prio())]
+        return ["usched %d %d %d" % (uvar(), dur(), prio())]
 
     def dur():
         return rng.choice([0, 0, 1, 1, 1, 2, 2, 3, 4, 5])
@@ -81,7 +103,9 @@ def gen_scenario(rng, profile=None, size=None, exclude=frozenset()):
             ch += ["cwait %d %d %d %d" % ((c,) + k)] * 3
         ch += ["hold %d" % dur()] * 2 + ["waitp %d" % other(me)]
         if profile in ("timers", "lifecycle", "mixed"):
-            ch += ["yield", "waite %d" % rng.randrange(8, 10)]
+            ch += ["yield", "waite %d" % (8 if pmode == "one" else uvar())]
+            if pmode:
+                ch += ["waite %d" % (8 if pmode == "one" else uvar())] * 2
         return rng.choice(ch)
 
     def nonblocking(me):
@@ -100,13 +124,14 @@ def gen_scenario(rng, profile=None, size=None, exclude=frozenset()):
                 ch += ["stop %d %d" % (me, rng.randint(1, 9))]
         if profile in ("lifecycle", "mixed"):
             ch += ["start %d" % other(me), "exit %d" % rng.randint(1, 9)]
-        if profile in ("resource", "crowd", "pool", "mixed", "lifecycle", "cond"):
+        if profile in ("resource", "crowd", "pool", "mixed", "lifecycle", "cond") and pmode != "prio":
             ch += ["prio %d %d" % (other(me), prio())] * 2
         if profile in ("timers", "mixed", "lifecycle"):
             v = rng.randrange(4)
             ch += ["tadd %d %d %d" % (v, dur(), rng.choice(SIGS)), "tset %d %d %d" % (v, dur(), rng.choice(SIGS)),
-                   "tcancel %d" % v, "tclear", "usched %d %d %d" % (rng.randrange(8, 10), dur(), prio()),
-                   "ucancel %d" % rng.randrange(8, 10)]
+                   "tcancel %d" % v, "tclear", usched_cmds(), "ucancel %d" % uvar()]
+            if pmode:
+                ch += [usched_cmds(), usched_cmds(), "upcancel", "upcancel"]
         if pqs:
             v = rng.randrange(4, 8)
             ch += ["kcancel 0 %d" % v, "kreprio 0 %d %d" % (v, rng.choice([0, 2, 7, -3])), "kpos 0 %d" % v]
@@ -234,9 +259,11 @@ def gen_scenario(rng, profile=None, size=None, exclude=frozenset()):
         # when the event is executed or cancelled and its waiters are woken
         nw = rng.randint(2, 12)
         k = rng.randint(0, 40)
-        how = rng.choice(["exec", "cancel", "cancel"])
+        how = rng.choice(["exec", "cancel", "cancel", "pcancel", "pcancel"])
         filler = ["usched 9 2 %d" % rng.randint(0, 3), "hold 1"] + ["tadd 0 50 -5"] * k
-        filler += (["hold 5"] if how == "exec" else ["ucancel 9", "hold 1"]) + ["hold 5"]
+        if how == "pcancel" and rng.random() < 0.5:
+            filler = ["usched 8 %d %d" % (rng.randint(1, 4), rng.randint(0, 3))] + filler      # a second match, nobody waits for it
+        filler += (["hold 5"] if how == "exec" else ["ucancel 9", "hold 1"] if how == "cancel" else ["upcancel", "hold 1"]) + ["hold 5"]
         out = ["res", "proc %d 1 %d" % (rng.randint(0, 3), len(filler))] + filler
         for _ in range(nw):
             out += ["proc %d 1 2" % rng.randint(0, 3), "waite 9", "hold 1"]
@@ -288,7 +315,8 @@ def gen_scenario(rng, profile=None, size=None, exclude=frozenset()):
                                             "tadd 0 %d -5" % dur(), "stop %d 1" % rng.randrange(np_)]))
             out.append("proc %d 1 %d" % (rng.randint(0, 9), len(cmds)))
             out += cmds
-        return out, {"profile": profile, "procs": np_, "lines": len(out)}
+        return out, {"profile": profile, "procs": np_, "lines": len(out), "pmode": pmode}
+    distinct = rng.sample([-1, 0, 1, 2, 3, 4, 5, 6], np_) if pmode == "prio" else None
     for p in range(np_):
         cmds = []
         if profile == "record" and p == 0:
@@ -296,7 +324,10 @@ def gen_scenario(rng, profile=None, size=None, exclude=frozenset()):
                 for i in range(n):
                     cmds.append("rstart %d %d" % (k, i))
         if profile in ("timers", "lifecycle", "mixed") and rng.random() < 0.5:
-            cmds.append("usched %d %d %d" % (rng.randrange(8, 10), dur() + 1, prio()))
+            if pmode == "one":
+                cmds += ["ucancel 8", "usched 8 %d %d" % (dur() + 1, prio())]
+            else:
+                cmds.append("usched %d %d %d" % (uvar(), dur() + 1, prio()))
         n = ncmd if profile != "crowd" else rng.randint(2, 4)
         while len(cmds) < n:
             r = rng.random()
@@ -309,8 +340,9 @@ def gen_scenario(rng, profile=None, size=None, exclude=frozenset()):
             elif r < 0.62:
                 cmds.append(blocking(p))
             else:
-                cmds.append(nonblocking(p))
+                x = nonblocking(p)
+                cmds += x if isinstance(x, list) else [x]
         auto = 0 if (profile in ("lifecycle",) and p > 0 and rng.random() < 0.25) else 1
-        out.append("proc %d %d %d" % (prio(), auto, len(cmds)))
+        out.append("proc %d %d %d" % (distinct[p] if distinct else prio(), auto, len(cmds)))
         out += cmds
     return out, {"profile": profile, "procs": np_, "lines": len(out)}
